@@ -22,6 +22,8 @@ def make_plan(seed: int, tier: str, opts: dict) -> dict:
         eps.append(ep)
     for ep in eps:
         ep["until_active"] = True
+    if not wall:
+        common.add_reconfig(r, spec, eps)
     hot = r.choice([0.0, 0.0, 0.15, 0.4])  # pre-emption concentrated on lines touching shared lifecycle/queue fields
     return dict(hot_rate=hot, spec=spec, seed=seed, episodes=eps, clock="wall" if wall else "sim",
                 line_rate=r.choice([0.0, 0.0025, 0.01]) if tier == "thorough" else 0.0)
@@ -44,7 +46,8 @@ def judge(plan, ro, checker):
 
 
 def run_plan(plan: dict, replay=None) -> dict:
-    ro = driver.execute(plan, replay=replay)
+    snap = {}
+    ro = driver.execute(plan, replay=replay, after_build=lambda nodes_: snap.update(common.snapshot_delays(nodes_)))
     res = dict(plan=plan)
     if ro.status in ("harness_error", "replay_diverged", "build_error"):
         res.update(status="harness_error", detail=f"{ro.status}: {ro.harness_error or ro.detail}")
@@ -54,7 +57,7 @@ def run_plan(plan: dict, replay=None) -> dict:
         res.update(status="precondition_failed", detail=f"episode did not complete ({ro.status}: {ro.detail[:300]})", decisions=ro.decisions, widths=ro.widths)
         return res
     wall = plan.get("clock") == "wall"
-    viol, verdicts, unavailable = judge(plan, ro, lambda eo: oracles.check_c03(eo.record, ro.nodes, plan["spec"], wall=wall))
+    viol, verdicts, unavailable = judge(plan, ro, lambda eo: oracles.check_c03(eo.record, ro.nodes, common.materialise(eo.plan.get("spec_after") or plan["spec"], snap), wall=wall))
     res.update(common.summarise(ro, plan, verdicts, extra_sums=dict(record_unavailable=unavailable, episodes_judged=len(verdicts), wall_clock_runs=1 if wall else 0)))
     if viol:
         res.update(status="violation", violations=viol, decisions=ro.decisions, widths=ro.widths)
